@@ -175,7 +175,8 @@ fn catalog_lane(ctx: &mut Ctx, idx: u64) {
     }
 }
 
-const POOL: [&str; 4] = ["A", "B", "C-c", "A1"];
+// field names are compared exactly: "a"/"A" and "C-c"/"C-C" are different fields
+const POOL: [&str; 6] = ["A", "B", "C-c", "A1", "a", "C-C"];
 
 fn edits_lane(ctx: &mut Ctx, _idx: u64) {
     let mut r = ctx.rng();
